@@ -194,7 +194,9 @@ def _interpret_node(t: Node, variables: Set[Variable], model: Model):
     if not has_concept:
         instance = (var, CONCEPT_ROLE, None)
         triples.insert(0, instance)
-        epidata.append((instance, []))
+        # keep epidata in step with triples so the node's final POP
+        # lands on its last triple, not on the inserted instance triple
+        epidata.insert(0, (instance, []))
 
     return var, triples, epidata
 
